@@ -92,6 +92,9 @@ class RefCounterRetain(_Base):
                 # the completion callback (an arbitrary user function) called directly
                 I.st.ghost['ran_inline'] = VInt(I.st.ghost['ran_inline'].t + 1)
                 return VElem(z3.Const(sym.fresh_name('cb_result'), sym.Elem))
+            if kind == 'builtin' and name in ('IOLoop.current', 'asyncio.get_running_loop', 'asyncio.get_event_loop'):
+                # whichever loop the caller happens to be on: it may or may not be the counter's loop
+                return VRef(z3.Const(sym.fresh_name('callers_loop'), sym.Obj), 'IOLoop')
             raise Unsupported('call of %s %s in RefCounter' % (kind, name))
         d['call_default'] = call_default
         return d
